@@ -32,12 +32,23 @@ Tie (all on the real code, in process):
       compared with the model's `vamSend`;
   (g) the cluster information container built while another thread completes a cluster break-up / switches the VRU
       role off, under harness/dsched.py (all schedules up to a pre-emption bound), outcomes compared with the model's.
+  (j) REPETITIONS of one DEN request (round 5): the real `request_denm_sending` + the repetition thread it starts (the
+      module's time.sleep / threading.Thread replaced: the thread body runs once the caller is back, every
+      inter-repetition sleep is a pause in which the CALLER acts) while the caller goes on using the position dictionary
+      it passed: item assignments at the top level and INSIDE the nested altitude / confidence-ellipse records,
+      `.update`, `.clear`, `.pop`, rebinding a key to a new record, clearing and refilling the whole dictionary, a
+      second request with the same dictionary - before the first and between any two repetitions.  Oracle: the harness'
+      own deep copy of the dictionary taken when the request was made; every repetition must be handed to BTP and
+      decode to exactly that position.  Compared with the model's `repetitions` (copy level regenerated).
 Oracle: `oracle_fields` — the CDD definitions of each data element (TS 102 894-2), applied to the DECODED payload.
 """
 from __future__ import annotations
 
+import copy
 import datetime
 import logging
+import threading
+import types
 import random as _random
 from fractions import Fraction
 
@@ -57,6 +68,7 @@ from flexstack.facilities.decentralized_environmental_notification_service.denm_
 from flexstack.applications.road_hazard_signalling_service.emergency_vehicle_approaching_service import (
     EmergencyVehicleApproachingService)
 from flexstack.btp.service_access_point import BTPDataIndication
+from flexstack.applications.road_hazard_signalling_service.service_access_point import DENRequest
 
 MODULES = ["Props.C11"]
 DRIVERS = ["Mapping"]
@@ -1709,6 +1721,466 @@ def check_cluster(ctx, mb, stack, bound, cap_runs, n_pct=0, variants=CLUSTER_VAR
 
 
 # ------------------------------------------------------------------------------------------------
+# (j) the repetitions of a DEN request while the caller goes on using the position dictionary it passed (round 5)
+
+ALT_CONF_NAMES = [n for _, n in ALT_LADDER] + ["outOfRange", "unavailable"]       # AltitudeConfidence, value = index
+ELL, ALT = "positionConfidenceEllipse", "altitude"
+POS_LEAVES = [("latitude",), ("longitude",), (ELL, "semiMajorConfidence"), (ELL, "semiMinorConfidence"),
+              (ELL, "semiMajorOrientation"), (ALT, "altitudeValue"), (ALT, "altitudeConfidence")]
+POS_RANGE = {"latitude": (-900000000, 900000000, [-900000000, 0, 900000000, 900000001]),
+             "longitude": (-1800000000, 1800000000, [-1800000000, 0, 1800000000, 1800000001]),
+             "semiMajorConfidence": (1, 4093, [1, 4093, 4094, 4095]), "semiMinorConfidence": (1, 4093, [1, 4093, 4094, 4095]),
+             "semiMajorOrientation": (0, 3599, [0, 900, 3599, 3601]),
+             "altitudeValue": (-100000, 800000, [-100000, 0, 800000, 800001])}
+
+
+def gen_leaf(rng, leaf, avoid=None):
+    """a value inside the constraint of the data element (25% special codes / limits), different from `avoid`"""
+    for _ in range(50):
+        if leaf == "altitudeConfidence":
+            v = rng.choice(ALT_CONF_NAMES)
+        else:
+            lo, hi, special = POS_RANGE[leaf]
+            v = rng.choice(special) if rng.random() < 0.25 else rng.randint(lo, hi)
+        if v != avoid:
+            return v
+    raise Infra("gen_leaf")
+
+
+def leaf_of(pos, path):
+    for k in path:
+        pos = pos[k]
+    return pos
+
+
+def gen_position(rng, other=None):
+    """an event position; every leaf differs from the same leaf of `other`"""
+    pos = {"latitude": None, "longitude": None, ELL: {}, ALT: {}}
+    for path in POS_LEAVES:
+        tgt = pos
+        for k in path[:-1]:
+            tgt = tgt[k]
+        tgt[path[-1]] = gen_leaf(rng, path[-1], leaf_of(other, path) if other else None)
+    return pos
+
+
+class _StopReps(BaseException):
+    """raised by the sleep stand-in when a repetition thread pauses far more often than any schedule allows"""
+
+
+class RepRun:
+    """ONE scenario on the real DENM transmission management.
+
+    sc = {"pos": event position, "interval": ms, "period": ms, "stype": n,
+          "acts": [{"at": g, "op": ...}, ...]}     g = index of the PAUSE in which the caller performs the action: pause 0 =
+    the caller is back from request_denm_sending and no repetition thread has run yet; every later pause is one
+    `time.sleep` of a repetition thread (for a single event: pause k = after its k-th repetition).
+    ops: set(path, value) | update(key, values) | rebind(key, values) | clear(key) | pop(path) | reset(values) |
+         request(interval, period)  (a further request with the SAME dictionary)."""
+
+    def __init__(self, stack, sc, clk):
+        self.sc, self.clk = sc, clk
+        self.coder = RecCoder(stack.denm_coder)
+        self.pos = copy.deepcopy(sc["pos"])             # the caller's own dictionary
+        self.events, self.log, self.pending, self.running, self.loose = [], [], [], [], []
+        self.pauses, self.next_tag, self.stalled, self.real_threads = 0, 0, False, []
+        self.acts_at = {}
+        for a in sc.get("acts", []):
+            self.acts_at.setdefault(a["at"], []).append(a)
+        drv = self
+
+        class Router:
+            def btp_data_request(self, request):
+                drv.on_denm(request)
+
+            def register_indication_callback_btp(self, port, callback):
+                pass
+
+        self.tm = dtm.DENMTransmissionManagement(Router(), self.coder, ctm.VehicleData(station_id=14, station_type=sc.get("stype", 5)))
+
+    # -- stand-ins for the module's `time` and `threading`
+    def _patched(self):
+        drv = self
+        o_time, o_thr = dtm.time, dtm.threading
+        ft = types.SimpleNamespace(**{k: getattr(o_time, k) for k in dir(o_time) if not k.startswith("__")})
+        ft.sleep = self.pause
+
+        class FakeThread:
+            def __init__(self, group=None, target=None, name=None, args=(), kwargs=None, daemon=None, **_):
+                self.target, self.args, self.kwargs, self.daemon, self.name = target, tuple(args), dict(kwargs or {}), daemon, name
+                self.started = self.done = False
+
+            def start(self):
+                self.started = True
+                drv.pending.append((drv.next_tag, self))
+
+            def run(self):
+                if self.target is not None:
+                    self.target(*self.args, **self.kwargs)
+
+            def join(self, timeout=None):
+                pass
+
+            def is_alive(self):
+                return self.started and not self.done
+
+        fth = types.SimpleNamespace(**{k: getattr(o_thr, k) for k in dir(o_thr) if not k.startswith("__")})
+        fth.Thread = FakeThread
+        dtm.time, dtm.threading = ft, fth
+        return o_time, o_thr
+
+    def go(self):
+        n_expected = -(-self.sc["period"] // self.sc["interval"]) + sum(
+            -(-a["period"] // a["interval"]) for a in self.sc.get("acts", []) if a["op"] == "request")
+        self.limit = 4 * n_expected + 16
+        o_time, o_thr = self._patched()
+        try:
+            self.request(self.sc["interval"], self.sc["period"])
+            self.pause(0)
+            for t in self.real_threads:                  # code that started a real thread after all: wait for it
+                t.join(10)
+                if t.is_alive():
+                    self.stalled = True
+        except _StopReps:
+            self.stalled = True
+        finally:
+            dtm.time, dtm.threading = o_time, o_thr
+        return self
+
+    def request(self, interval, period):
+        e = len(self.events)
+        ev = {"snap": copy.deepcopy(self.pos), "interval": interval, "period": period, "n": -(-period // interval),
+              "denms": [], "err": None}
+        self.events.append(ev)
+        self.log.append(("accept", e, None))
+        self.next_tag = e
+        req = DENRequest(denm_interval=interval, time_period=period, detection_time=self.clk.ms - ITS_EPOCH_MS,
+                         event_position=self.pos, relevance_distance="lessThan200m",
+                         relevance_traffic_direction="upstreamTraffic", rhs_cause_code="emergencyVehicleApproaching95",
+                         rhs_subcause_code=1, rhs_event_speed=30, rhs_vehicle_type=0)
+        before = set(threading.enumerate())
+        try:
+            self.tm.request_denm_sending(req)
+        except _StopReps:
+            raise
+        except Exception as ex:
+            ev["err"] = f"request_denm_sending raised {type(ex).__name__}: {str(ex)[:120]}"
+        self.real_threads += [t for t in threading.enumerate() if t not in before]
+
+    def pause(self, seconds=0):
+        g = self.pauses
+        self.pauses += 1
+        if self.pauses > self.limit:
+            raise _StopReps()
+        try:
+            self.clk.advance(max(0, int(round(float(seconds) * 1000))))
+        except (TypeError, ValueError, OverflowError):
+            pass
+        for act in self.acts_at.get(g, []):
+            self.apply(act)
+        self.run_pending()
+
+    def run_pending(self):
+        while self.pending:
+            tag, th = self.pending.pop(0)
+            self.running.append(tag)
+            try:
+                th.run()
+            except _StopReps:
+                raise
+            except Exception as ex:
+                self.events[tag]["err"] = f"the repetition thread ended with {type(ex).__name__}: {str(ex)[:120]}"
+            finally:
+                th.done = True
+                self.running.pop()
+
+    def apply(self, act):
+        op, p = act["op"], self.pos
+        if op == "request":
+            self.request(act["interval"], act["period"])
+            return
+        if op in ("set", "pop"):
+            tgt = p
+            for k in act["path"][:-1]:
+                tgt = tgt[k]
+            if op == "set":
+                tgt[act["path"][-1]] = copy.deepcopy(act["value"])
+            else:
+                tgt.pop(act["path"][-1], None)
+        elif op == "update":
+            p[act["key"]].update(act["values"])
+        elif op == "rebind":
+            p[act["key"]] = dict(act["values"])
+        elif op == "clear":
+            p[act["key"]].clear()
+        elif op == "reset":
+            p.clear()
+            p.update(copy.deepcopy(act["values"]))
+        else:
+            raise Infra(f"unknown caller action {op}")
+        self.log.append(("act", act, copy.deepcopy(p)))
+
+    def on_denm(self, request):
+        tag = self.running[-1] if self.running else (0 if len(self.events) == 1 else None)
+        rec = {"err": None, "pos": None, "diffs": [], "caller": copy.deepcopy(self.pos)}
+        try:
+            d = self.coder.real.decode(request.data)
+            rec["pos"] = norm(d["denm"]["management"]["eventPosition"])
+            rec["diffs"] = [t for pth, t in tree_diff(self.coder.last, norm(d)) if pth.rsplit("/", 1)[-1] not in DENM_DROPPED_KEYS]
+        except Exception as ex:
+            rec["err"] = f"the payload handed to BTP is not a decodable UPER DENM ({type(ex).__name__})"
+        if tag is None:
+            self.loose.append(rec)
+        else:
+            self.events[tag]["denms"].append(rec)
+            self.log.append(("denm", tag, None))
+
+
+def pos_diffs(want, got):
+    out = []
+    for path in POS_LEAVES:
+        try:
+            g = leaf_of(got, path)
+        except (KeyError, TypeError):
+            g = "<missing>"
+        w = leaf_of(want, path)
+        if g != w:
+            out.append(("/".join(path), w, g))
+    if isinstance(got, dict) and set(got) - {"latitude", "longitude", ELL, ALT}:
+        out.append(("<extra components>", None, sorted(set(got) - {"latitude", "longitude", ELL, ALT})))
+    return out
+
+
+def judge_reps(run):
+    """every repetition of every request handed to BTP, decodable, and decoding to the position the request was MADE with
+    (the harness' deep copy taken at the call) -> [violation text]"""
+    out = []
+    many = len(run.events) > 1
+    if run.stalled:
+        out.append(f"DENM generation stalls: a repetition thread does not end (more than {run.limit} inter-repetition pauses / still alive)")
+    for e, ev in enumerate(run.events):
+        tag = f" (request #{e + 1} of the {len(run.events)} made with one dictionary)" if many else ""
+        if ev["err"]:
+            out.append(f"DENM generation fails{tag}: {ev['err']}")
+        for k, rec in enumerate(ev["denms"]):
+            if rec["err"]:
+                out.append(f"DENM repetition #{k + 1} of {ev['n']}{tag}: {rec['err']}")
+                continue
+            d = pos_diffs(ev["snap"], rec["pos"])
+            if d:
+                def cur(pth):
+                    try:
+                        return leaf_of(rec["caller"], pth.split("/"))
+                    except (KeyError, TypeError):
+                        return None
+                mixed = len(d) < len(POS_LEAVES) and all(g == cur(pth) for pth, w, g in d)
+                out.append(f"DENM repetition #{k + 1} of {ev['n']}{tag} does not decode to the event position the DENM was requested with: "
+                           + ", ".join(f"{pth} {g!r} (requested {w!r})" for pth, w, g in d)
+                           + (" - the values the caller wrote into its own dictionary AFTER the request was accepted, while the other "
+                              "components are still the requested ones: a position mixing two reports" if mixed else ""))
+            for t in rec["diffs"][:2]:
+                out.append(f"DENM repetition #{k + 1} of {ev['n']}{tag} does not decode to the message built: {t}")
+        if len(ev["denms"]) < ev["n"] and not run.stalled:
+            out.append(f"DENM generation fails{tag}: {len(ev['denms'])} of the {ev['n']} repetitions (interval {ev['interval']} ms, "
+                       f"duration {ev['period']} ms) handed to BTP - a repetition was skipped")
+    for rec in run.loose:         # emitted outside any repetition thread the harness knows: must be SOME requested position
+        if rec["err"]:
+            out.append(f"DENM: {rec['err']}")
+        elif all(pos_diffs(ev["snap"], rec["pos"]) for ev in run.events):
+            out.append(f"DENM decodes to event position {rec['pos']}, which no request was made with")
+    return out
+
+
+def show_reqpos(pos):
+    try:
+        e, a = pos[ELL], pos[ALT]
+        return (f"{pos['latitude']} {pos['longitude']} {e['semiMajorConfidence']} {e['semiMinorConfidence']} "
+                f"{e['semiMajorOrientation']} {a['altitudeValue']} {ALT_CONF_NAMES.index(a['altitudeConfidence'])}")
+    except (KeyError, TypeError, ValueError):
+        return None
+
+
+def reps_model_lines(run):
+    """per request: (model line, what the real repetitions decoded to) or None when the scenario has no model
+    counterpart (records emptied / keys removed: the encoder input is malformed then)"""
+    out = []
+    for e, ev in enumerate(run.events):
+        start = show_reqpos(ev["snap"])
+        if start is None or ev["err"] or any(r["err"] for r in ev["denms"]):
+            return None
+        toks, seen = [], False
+        for kind, x, after in run.log:
+            if kind == "accept":
+                seen = seen or x == e
+                continue
+            if not seen:
+                continue
+            if kind == "denm":
+                if x == e:
+                    toks.append("rep")
+                continue
+            act = x
+            full = show_reqpos(after)
+            if full is None:
+                return None
+            la, lo, mj, mn, ori, av, ac = full.split()
+            ell_t, alt_t = f"{mj}:{mn}:{ori}", f"{av}:{ac}"
+            if act["op"] == "set" and len(act["path"]) == 1:
+                k = act["path"][0]
+                toks.append({"latitude": f"lat:{la}", "longitude": f"lon:{lo}", ELL: "nell:" + ell_t, ALT: "nalt:" + alt_t}[k])
+            elif act["op"] == "set":
+                toks.append(("ell:" + ell_t) if act["path"][0] == ELL else ("alt:" + alt_t))
+            elif act["op"] == "update":
+                toks.append(("ell:" + ell_t) if act["key"] == ELL else ("alt:" + alt_t))
+            elif act["op"] == "rebind":
+                toks.append(("nell:" + ell_t) if act["key"] == ELL else ("nalt:" + alt_t))
+            elif act["op"] == "reset":
+                toks += [f"lat:{la}", f"lon:{lo}", "nell:" + ell_t, "nalt:" + alt_t]
+            else:
+                return None
+        real = [show_reqpos(r["pos"]) for r in ev["denms"]]
+        if any(r is None for r in real):
+            return None
+        out.append((f"denmsnap {start} " + " ".join(toks), " | ".join(real)))
+    return out
+
+
+REP_BASE = {"latitude": 413851234, "longitude": 21734035,
+            ELL: {"semiMajorConfidence": 1059, "semiMinorConfidence": 875, "semiMajorOrientation": 0},
+            ALT: {"altitudeValue": 16350, "altitudeConfidence": "alt-050-00"}}
+REP_NEXT = {"latitude": 413918770, "longitude": 21200110,
+            ELL: {"semiMajorConfidence": 900, "semiMinorConfidence": 300, "semiMajorOrientation": 900},
+            ALT: {"altitudeValue": 6480, "altitudeConfidence": "alt-002-00"}}
+
+
+def refresh_acts(at, new):
+    """the caller processes its next report and refreshes its record IN PLACE"""
+    return [{"at": at, "op": "set", "path": ["latitude"], "value": new["latitude"]},
+            {"at": at, "op": "set", "path": ["longitude"], "value": new["longitude"]},
+            {"at": at, "op": "update", "key": ALT, "values": dict(new[ALT])},
+            {"at": at, "op": "update", "key": ELL, "values": dict(new[ELL])}]
+
+
+def systematic_rep_scenarios():
+    """3 repetitions; in every pause (before the 1st, after the 1st, after the 2nd repetition) every kind of caller action
+    on every component, one at a time; the in-place refresh; the refresh followed by a second request"""
+    out = []
+    for at in (0, 1, 2):
+        acts = []
+        for path in POS_LEAVES:
+            acts.append([{"at": at, "op": "set", "path": list(path), "value": leaf_of(REP_NEXT, path)}])
+            if len(path) == 2:
+                acts.append([{"at": at, "op": "pop", "path": list(path)}])
+        for key in (ELL, ALT):
+            acts.append([{"at": at, "op": "update", "key": key, "values": dict(REP_NEXT[key])}])
+            acts.append([{"at": at, "op": "rebind", "key": key, "values": dict(REP_NEXT[key])}])
+            acts.append([{"at": at, "op": "set", "path": [key], "value": dict(REP_NEXT[key])}])
+            acts.append([{"at": at, "op": "clear", "key": key}])
+        acts.append(refresh_acts(at, REP_NEXT))
+        acts.append([{"at": at, "op": "reset", "values": REP_NEXT}])
+        acts.append(refresh_acts(at, REP_NEXT) + [{"at": at, "op": "request", "interval": 100, "period": 200}])
+        acts.append([{"at": at, "op": "request", "interval": 50, "period": 100}] + refresh_acts(at + 1, REP_NEXT))
+        for a in acts:
+            out.append({"pos": copy.deepcopy(REP_BASE), "interval": 100, "period": 300, "stype": 5, "acts": a})
+    out.append({"pos": copy.deepcopy(REP_BASE), "interval": 100, "period": 300, "stype": 5, "acts": []})
+    return out
+
+
+def gen_rep_scenario(rng):
+    interval = rng.choice([50, 100, 250, 1000])
+    n = rng.randrange(1, 7)
+    period = n * interval - rng.choice([0, 0, interval // 2, interval - 1])
+    pos = gen_position(rng)
+    acts = []
+    destructive = rng.random() < 0.15
+    cur = copy.deepcopy(pos)
+    for _ in range(rng.randrange(1, 6)):
+        at = rng.randrange(0, n + 1)
+        r = rng.random()
+        if r < 0.35:
+            path = rng.choice(POS_LEAVES)
+            acts.append({"at": at, "op": "set", "path": list(path), "value": gen_leaf(rng, path[-1], leaf_of(pos, path))})
+        elif r < 0.55:
+            key = rng.choice([ELL, ALT])
+            new = gen_position(rng, pos)[key]
+            sub = {k: v for k, v in new.items() if rng.random() < 0.7} or new
+            acts.append({"at": at, "op": "update", "key": key, "values": sub})
+        elif r < 0.65:
+            key = rng.choice([ELL, ALT])
+            acts.append({"at": at, "op": rng.choice(["rebind", "set"]), "key": key, "path": [key],
+                         "values": gen_position(rng, pos)[key], "value": gen_position(rng, pos)[key]})
+        elif r < 0.8:
+            acts += refresh_acts(at, gen_position(rng, pos))
+        elif r < 0.87:
+            acts.append({"at": at, "op": "reset", "values": gen_position(rng, pos)})
+        elif destructive:
+            key = rng.choice([ELL, ALT])
+            if rng.random() < 0.5:
+                acts.append({"at": at, "op": "clear", "key": key})
+            else:
+                acts.append({"at": at, "op": "pop", "path": [key, rng.choice(sorted(pos[key]))]})
+        else:
+            i2 = rng.choice([50, 100, 250])
+            acts.append({"at": at, "op": "request", "interval": i2, "period": i2 * rng.randrange(1, 4)})
+    del cur
+    if destructive:                       # a further request would be made with a malformed dictionary: not a valid input
+        acts = [a for a in acts if a["op"] != "request"]
+    acts.sort(key=lambda a: a["at"])
+    return {"pos": pos, "interval": interval, "period": period, "stype": rng.randrange(0, 16), "acts": acts}
+
+
+def describe_acts(sc):
+    def one(a):
+        if a["op"] == "set":
+            return f"pause {a['at']}: pos[{']['.join(repr(k) for k in a['path'])}] = {a['value']!r}"
+        if a["op"] == "pop":
+            return f"pause {a['at']}: del pos[{']['.join(repr(k) for k in a['path'])}]"
+        if a["op"] in ("update", "rebind"):
+            return f"pause {a['at']}: pos[{a['key']!r}]" + (f".update({a['values']!r})" if a["op"] == "update" else f" = {a['values']!r}")
+        if a["op"] == "clear":
+            return f"pause {a['at']}: pos[{a['key']!r}].clear()"
+        if a["op"] == "reset":
+            return f"pause {a['at']}: pos.clear(); pos.update({a['values']!r})"
+        return f"pause {a['at']}: request_denm_sending again with the same dictionary ({a['interval']} ms / {a['period']} ms)"
+    return "; ".join(one(a) for a in sc.get("acts", []))
+
+
+def check_reps(ctx, mb, stack, scs, clk, tag):
+    lines, expect = [], []
+    for si, sc in enumerate(scs):
+        run = RepRun(stack, sc, clk).go()
+        n_denm = sum(len(ev["denms"]) for ev in run.events) + len(run.loose)
+        ctx.evals(max(1, n_denm))
+        for a in sc.get("acts", []):
+            nested = a["op"] in ("update", "clear") or (a["op"] in ("set", "pop") and len(a["path"]) == 2)
+            ctx.cover(f"denmrep_{a['op']}_{'nested' if nested else 'top'}")
+            ctx.cover("denmrep_act_before_first_repetition" if a["at"] == 0 else "denmrep_act_between_repetitions")
+        ctx.cover(f"denmrep_requests_{len(run.events)}")
+        bad = judge_reps(run)
+        case = dict(sc, kind="denmrep")
+        for what in bad[:2]:
+            ctx.violation(f"{what}  [request with event position {sc['pos']}, {sc['interval']} ms / {sc['period']} ms; the caller then: "
+                          f"{describe_acts(sc) or 'nothing'}; pause 0 = before the first repetition, pause k = after the k-th]", case, None)
+        ml = reps_model_lines(run)
+        if ml is None:
+            ctx.cover("denmrep_no_model_counterpart")
+        else:
+            for line, real in ml:
+                lines.append(line)
+                expect.append((real, sc))
+        ctx.nontrivial(("denmrep", tuple((a["at"], a["op"], tuple(a.get("path", [a.get("key")]))) for a in sc.get("acts", [])),
+                        tuple(len(ev["denms"]) for ev in run.events)))
+        if si == 0:
+            ctx.sample("denm-repetitions", {"scenario": sc, "decoded": [r["pos"] for ev in run.events for r in ev["denms"]]})
+
+    def compare(out):
+        for (real, sc), mo in zip(expect, out):
+            if real != mo:
+                ctx.mismatch(f"denm-repetitions/{tag}", {"scenario": sc}, real, mo)
+    mb.add(lines, compare)
+
+
+# ------------------------------------------------------------------------------------------------
 
 _STACK = []
 
@@ -1728,7 +2200,7 @@ def check_corpus_replays(ctx, corp):
     import contextlib
     import io
     for c in corp:
-        if c.get("kind") in ("roles", "rx", "rec", "cluster", "vamstate"):
+        if c.get("kind") in ("roles", "rx", "rec", "cluster", "vamstate", "denmrep"):
             with contextlib.redirect_stdout(io.StringIO()) as buf:
                 bad = replay(ctx, {"case": c})
             ctx.evals()
@@ -1747,6 +2219,9 @@ def run(ctx):
                          "reports on one CAM transmission management with path-history offsets at and around the limits of "
                          "DeltaLatitude/DeltaLongitude, standstills, reports without position, generation gaps from 100 ms to hours; "
                          "17 clustering states x {no, stub, real} LDM adapter on the VAM sending path; "
+                         "1-6 repetitions of a DEN request (real request_denm_sending + repetition thread) while the caller assigns / "
+                         "updates / clears / rebinds every component of the position dictionary it passed, nested records included, "
+                         "before the first and between any two repetitions, incl. a second request with the same dictionary; "
                          "the cluster container under all schedules up to the pre-emption bound; "
                          "distinct_nontrivial counts distinct decoded field tuples / outcomes")
     st = stack()
@@ -1764,6 +2239,8 @@ def run(ctx):
         check_trajectories(ctx, mb, st, [c["steps"] for c in corp if c.get("kind") == "trajectory"] + systematic_trajectories(), clk, "systematic")
         check_trajectories(ctx, mb, st, [gen_trajectory(ctx.rng) for _ in range(ctx.scale(150, 12000))], clk, "random")
         check_vam_states(ctx, mb, st, clk, ctx.scale(1, 40))
+        check_reps(ctx, mb, st, systematic_rep_scenarios(), clk, "systematic")
+        check_reps(ctx, mb, st, [gen_rep_scenario(ctx.rng) for _ in range(ctx.scale(150, 8000))], clk, "random")
         check_gdt(ctx, mb, ctx.scale(1500, 100000), [c["ms"] for c in corp if c.get("kind") in ("gdt", "rec")])
         check_rx(ctx, mb, st, clk, ctx.scale(40, 5000), [c["ms"] for c in corp if c.get("kind") == "rx"])
     check_uper(ctx, mb, ctx.scale(300, 20000))
@@ -1782,6 +2259,9 @@ def search(ctx):
             check_histories(ctx, mb, st, SYSTEMATIC_HISTORIES, clk, "search-systematic")
             check_trajectories(ctx, mb, st, systematic_trajectories(), clk, "search-systematic")
             check_vam_states(ctx, mb, st, clk, 3)
+            check_reps(ctx, mb, st, systematic_rep_scenarios(), clk, "search-systematic")
+            if not ctx.violations:
+                check_reps(ctx, mb, st, [gen_rep_scenario(ctx.rng) for _ in range(ctx.scale(500, 20000))], clk, "search")
             if not ctx.violations:
                 check_trajectories(ctx, mb, st, [gen_trajectory(ctx.rng) for _ in range(ctx.scale(600, 30000))], clk, "search")
             check_roles(ctx, mb, st, clk, 2)
@@ -1851,6 +2331,17 @@ def replay(ctx, obj):
                         print(f"report #{i + 1}: {what}")
                         bad.append(what)
             print(f"{len(bad)} violations in clustering state {case['state']} with LDM adapter {case['ldm']}")
+            return bool(bad)
+        if kind == "denmrep":
+            run = RepRun(st, case, clk).go()
+            bad = judge_reps(run)
+            for what in bad:
+                print(what)
+            for e, ev in enumerate(run.events):
+                print(f"request #{e + 1} made with {ev['snap']}: {len(ev['denms'])} of {ev['n']} repetitions handed to BTP")
+                for k, rec in enumerate(ev["denms"]):
+                    print(f"  repetition #{k + 1}: eventPosition {rec['pos'] if not rec['err'] else rec['err']}")
+            print(f"{len(bad)} violations; the caller: {describe_acts(case) or 'nothing'}")
             return bool(bad)
         if kind == "roles":
             stn = CamStation(st.cam_coder, case.get("stype", 5), case["role"])
